@@ -3,6 +3,8 @@ package eng
 import (
 	"context"
 	"encoding/binary"
+	"strings"
+	"sync/atomic"
 	"fmt"
 	"math/rand"
 	"sync"
@@ -368,4 +370,64 @@ func runScenBody(sc *Scen, h Hooks, res *ScenResult, settle func()) {
 func Settle() []Goroutine {
 	synctest.Wait()
 	return LeakedIn("lightning-node-connect/gbn", "lightning-node-connect/mailbox")
+}
+
+// AnyFrozen is set when a bubble of this process froze (see RunScenGuarded); the
+// worker must then end through mon.FlushAndExit, because a frozen bubble cannot
+// be torn down.
+var AnyFrozen atomic.Bool
+
+// RunScenGuarded is RunScen under a real-time guard. A bubble whose virtual
+// clock cannot advance (some goroutine waits on a mutex or sync.Once whose
+// holder needs time to pass, or the code under test has deadlocked) never
+// finishes; after `guard` of real time it is abandoned and frozen=true is
+// returned. That is not a verdict by itself: see DeadlockProbe.
+func RunScenGuarded(t *testing.T, sc *Scen, h Hooks, guard time.Duration) (res *ScenResult, frozen bool) {
+	done := make(chan *ScenResult, 1)
+	go func() { done <- RunScen(t, sc, h) }()
+	select {
+	case r := <-done:
+		return r, false
+	case <-time.After(guard):
+		AnyFrozen.Store(true)
+		return nil, true
+	}
+}
+
+// DeadlockProbe runs the scenario on the real clock for at most budget and
+// then applies the two-census rule: goroutines that are parked in
+// sync.(*Mutex/RWMutex).Lock inside gbn code in two censuses 5 s apart are
+// deadlocked (gbn's critical sections are short; nothing legitimately waits
+// that long for a lock). It returns their stacks.
+func DeadlockProbe(sc *Scen, h Hooks, budget time.Duration) []Goroutine {
+	cp := *sc
+	if cp.Horizon > budget {
+		cp.Horizon = budget
+	}
+	cp.Quiesce = 0
+	go RunScenRealTime(&cp, h)
+	time.Sleep(budget)
+	stuck := func() map[string]Goroutine {
+		m := map[string]Goroutine{}
+		for _, g := range Census() {
+			if (strings.Contains(g.State, "Mutex.Lock") || strings.Contains(g.State, "RWMutex")) &&
+				strings.Contains(g.Stack, "lightning-node-connect/gbn") && g.Bubble == "" {
+				m[g.ID] = g
+			}
+		}
+		return m
+	}
+	a := stuck()
+	if len(a) == 0 {
+		return nil
+	}
+	time.Sleep(5 * time.Second)
+	b := stuck()
+	var out []Goroutine
+	for id, g := range b {
+		if _, ok := a[id]; ok {
+			out = append(out, g)
+		}
+	}
+	return out
 }
